@@ -1461,6 +1461,10 @@ class Interp:
         rec(0, env)
 
     def ev_ListComp(self, e, env, module):
+        if len(e.generators) == 1 and isinstance(e, ast.ListComp):
+            it = self.eval(e.generators[0].iter, env, module)
+            if hasattr(it, 'comprehension'):
+                return it.comprehension(self, e, env, module)
         out = []
         self._comp(e.generators, env, module, lambda en: out.append(self.eval(e.elt, en, module)))
         return out
@@ -1535,6 +1539,8 @@ class Interp:
             if len(args) != 1:
                 return ''
             return self.py_str(args[0], node)
+        if f is list and args and hasattr(args[0], 'to_list'):
+            return args[0].to_list(self, node)
         if f in (list, tuple):
             items = self.iterate(args[0], node) if args else []
             return f(items)
@@ -1555,6 +1561,8 @@ class Interp:
             if all(is_native(x) or isinstance(x, tuple) and all(is_native(y) for y in x) for x in items):
                 return set(items)
             return SymSmallSet(items)
+        if f is type and len(args) == 1 and isinstance(args[0], Obj):
+            return args[0].cls
         if f is int and len(args) == 1 and isinstance(args[0], (int, str)):
             try:
                 return int(args[0])
@@ -1814,6 +1822,8 @@ class Interp:
 
     def bi_enumerate(self, args, kwargs, node):
         start = args[1] if len(args) > 1 else kwargs.get('start', 0)
+        if hasattr(args[0], 'enumerate'):
+            return args[0].enumerate(self, start, node)
         return list(enumerate(self.iterate(args[0], node), start))
 
     def bi_range(self, args, kwargs, node):
